@@ -97,23 +97,50 @@ def hoist(R, ctx):
                 "in_parentheses() under Evaluator::can_return_multiple_values of that value (a call / `...` must not start returning several values)")
     M = guards.Mentions(ctx.an)
     pred = guards.is_call_named("can_return_multiple_values")
-    for path, accessors in (("<rules::remove_types::RemoveTypesProcessor as process::node_processor::NodeProcessor>::process_expression", ("get_expression", "get_prefix")),):
-        fn = lib.fn(path)
-        if not R.require(rid, "anchor:" + path.split("::")[-1], fn is not None, "", "not found"):
-            continue
-        fa = ctx.an.fa(fn["path"])
+    # remove_types: transfer function of process_expression on `<V> :: T` and `<P><<T>>` for every inner variant
+    from .. import peval
+    from ..peval import Enum, Struct, make
+    PREFIX = "nodes::expressions::prefix::Prefix"
+    TC, TI, RT = "nodes::expressions::type_cast::TypeCastExpression", "nodes::expressions::type_instantiation::TypeInstantiationExpression", "rules::remove_types::RemoveTypesProcessor"
+    fn = lib.fn("<%s as process::node_processor::NodeProcessor>::process_expression" % RT)
+    MULTI = {"Call", "VariableArguments"}
+    if R.require(rid, "anchor:process_expression", fn is not None and all(x in lib.adts for x in (TC, TI, RT)), "", "remove_types process_expression / node types not found"):
         n = 0
-        for asg in guards.node_param_assignments(fa, fn):
-            srcs = [y.get("fname") for y in fa.source_calls(asg["r"])]
-            if not any(s in accessors for s in srcs):
-                continue
+        def payload(enum_adt, V):
+            # the variant's payload as an abstract struct (fields from the ADT metadata) carrying the scenario's tag
+            tys = [f["tys"] for v in lib.adts[enum_adt]["variants"] if v["name"] == V for f in v["fields"]]
+            t = tys[0] if tys else ""
+            while t.startswith("alloc::boxed::Box<"):
+                t = t[len("alloc::boxed::Box<"):-1]
+            if t in lib.adts and lib.adts[t].get("kind") == "struct":
+                extra = {"#tag": "inner"}
+                if t.endswith("BinaryExpression"):
+                    extra["operator"] = Enum("nodes::expressions::binary::BinaryOperator", "And")
+                return make(lib, t, extra)
+            return Struct("#payload", {"#tag": "inner"})
+        cases = [("TypeCast", V, lambda V: Enum(EXPR, "TypeCast", {"0": make(lib, TC, {"expression": Enum(EXPR, V, {"0": payload(EXPR, V)})})}))
+                 for V in [v["name"] for v in lib.adts[EXPR]["variants"] if v["name"] not in ("TypeCast", "TypeInstantiation")]]
+        cases += [("TypeInstantiation", V, lambda V: Enum(EXPR, "TypeInstantiation", {"0": make(lib, TI, {"prefix": Enum(PREFIX, V, {"0": payload(PREFIX, V)})})}))
+                  for V in [v["name"] for v in lib.adts[PREFIX]["variants"] if v["name"] != "TypeInstantiation"]]
+        for outer, V, build in cases:
+            e = build(V)
+            pe = peval.PEval(lib, ctx.an)
+            try:
+                pe.call_fn(fn, [make(lib, RT), e])
+            except peval.OutOfFuel:
+                pass
             n += 1
-            wrapped = any(c.get("fname") == "in_parentheses" for c in thir.walk(asg["r"]) if c.get("k") == "Call")
-            kinds = [k for cond, k in guards.conditions_of(fa, asg) if M.mentions(fa, cond, pred)]
-            ok = ("then" in kinds and wrapped) or ("else" in kinds and not wrapped)
-            R.ob(rid, "remove_types|process_expression@%d" % n, ok, ctx.where(fn, asg.get("ln")),
-                 "hoisted value is %s on the %s branch of can_return_multiple_values" % ("parenthesised" if wrapped else "bare", kinds or "NO"))
-        R.require(rid, "remove_types|floor", n >= 2, ctx.where(fn), "%d hoisting assignments (TypeCast x2, TypeInstantiation x2)" % n)
+            stripped = isinstance(e, Enum) and e.variant not in ("TypeCast", "TypeInstantiation")
+            inner = e
+            if V != "Parenthese" and isinstance(e, Enum) and e.variant == "Parenthese" and isinstance(e.fields.get("0"), Struct):
+                inner = e.fields["0"].fields.get("expression")
+            same = isinstance(inner, Enum) and inner.variant == V and isinstance(inner.fields.get("0"), Struct) and inner.fields["0"].fields.get("#tag") == "inner"
+            ok = stripped and same and (V not in MULTI or e.variant == "Parenthese")
+            R.ob(rid, "remove_types|process_expression|%s(%s)" % (outer, V), ok and not pe.unknown_reasons, ctx.where(fn),
+                 "type syntax removed, value %s" % ("kept in parentheses (single value)" if e.variant == "Parenthese" else "moved up as it is") if ok and not pe.unknown_reasons else
+                 ("hoisted value is bare although Expression::%s can return several values: `(f() :: T)` would start returning all of them" % V if stripped and same else
+                  "result %s %s" % (repr(e)[:80], pe.unknown_reasons[:2])))
+        R.require(rid, "remove_types|floor", n >= 20, ctx.where(fn), "%d (type syntax, inner variant) cells" % n)
     fn = lib.fn("rules::remove_if_expression::Processor::wrap_in_table")
     if R.require(rid, "anchor:wrap_in_table", fn is not None, "", "not found"):
         fa = ctx.an.fa(fn["path"])
